@@ -38,6 +38,42 @@ D = {
  "C17-m1": ("C17", "skiplist.go Delete: level shrink tests the predecessor's link instead of the head's", "Set a; Set b; Delete b; Delete a; Set c with a tall tower for a (maxLevel >= 2)"),
  "C17-m2": ("C17", "skiplist.go Set: early return when the value bytes are equal", "re-Set of the same versioned key with the same value and a flipped tombstone flag"),
 }
+D.update({
+ "C01-r2m1": ("C01", "types.IsSameKey: prefix test on the text up to the last '@' of the first key", "a user key that is another user key followed by '@' and more bytes"),
+ "C01-r2m2": ("C01", "filter.Contains: Reset after the early return", "a lookup rejected by a table's filter followed by a lookup of a key that table holds"),
+ "C02-r2m1": ("C02", "level.go recover: `if` instead of `for` when growing the level list", "reopen of a directory whose first table file is in a level >= 1"),
+ "C02-r2m2": ("C02", "db.go rawset: non-blocking send to the flusher (memtable dropped when the queue is full)", "rotation against a full flush queue, later overwrite reaching a table, Close, reopen"),
+ "C03-r2m1": ("C03", "level.go maxLevelIdx: idx of the last table", "ten or more tables in a level, restart, further flush"),
+ "C03-r2m2": ("C03", "level.go recover: accepts every name parseFileName accepts (also level-idx.db.tmp)", "crash between create and rename of a temporary table"),
+ "C04-r2m1": ("C04", "wal.Read: records above 64 KiB are treated as a torn tail", "multi-key transaction with one value near 64 KiB, crash before the flush"),
+ "C04-r2m2": ("C04", "db.go Close: flush of the active memtable before the flusher drained (reverts the F14 repair)", "flush queue non-empty at Close, multi-key transaction in the active memtable with an older version of one key queued, crash inside Close"),
+ "C05-r2m1": ("C05", "db.go search: immutables walked oldest first", "two queued frozen memtables with versions of one key"),
+ "C05-r2m2": ("C05", "txn.go Get: a pending own Delete falls through to the snapshot", "Delete then Get of a key that exists in the snapshot, in one transaction"),
+ "C06-r2m1": ("C06", "txn.go Get: fingerprint recorded only for found keys", "create-if-absent by two transactions"),
+ "C06-r2m2": ("C06", "oracle.readTs: read-only transactions do not wait for commitMark", "read-only Begin between timestamp allocation and memtable insert of a concurrent commit"),
+ "C07-r2m1": ("C07", "oracle.newCommitTs: readMark.Done without setting txn.doneRead (released twice)", "two transactions sharing a read timestamp, overwrite, two further commits, then the sibling commits"),
+ "C07-r2m2": ("C07", "txn.go Commit: nothing-to-commit test uses readOnly instead of the empty write set", "update-mode transaction that only reads, concurrent overwrite of a key it read"),
+ "C08-r2m1": ("C08", "txn.go modify: discarded check after the fingerprint was recorded in the published set", "refused Set on a committed handle, then commit of a transaction that read that key"),
+ "C08-r2m2": ("C08", "db.go: StateClosed stored only on one exit of the flusher loop", "Close with a backlog of queued memtables, then View/Update"),
+ "C09-r2m1": ("C09", "level.go compactLN merges with kway.Merge (drops tombstones)", "cascaded compaction from a level >= 1 of a table holding a deletion marker"),
+ "C09-r2m2": ("C09", "level.go searchLowerBound: break after a level with a hit", "three L0 tables: front, disjoint older, newer overlapping the front"),
+ "C10-r2m1": ("C10", "filter.Contains: Reset after the early return", "rejected lookup then lookup of a stored key on the same table handle"),
+ "C10-r2m2": ("C10", "level.go recover: one table.Index value reused for all files", "reopen of a directory with two or more tables"),
+ "C11-r2m1": ("C11", "utils.Compress: one package-level s2.Writer reused through Reset", "two goroutines encoding at the same time"),
+ "C11-r2m2": ("C11", "utils.LCP: range over runes instead of bytes", "adjacent keys holding the same character once in Latin-1 and once in UTF-8"),
+ "C12-r2m1": ("C12", "level.go flushToL0: lm.mu released before the table file is written", "Get with an old snapshot falling through to the sstables while a flush is between publishing the handle and writing the file"),
+ "C12-r2m2": ("C12", "db.go search: immutables walked oldest first", "rotation during a flush"),
+ "C13-r2m1": ("C13", "watermark.Begin: non-blocking send, a goroutine delivers the mark later when the channel is full", "more than 100 marks in flight"),
+ "C13-r2m2": ("C13", "watermark.process: only waiters on popped indices are released", "WaitForMark on an index that is itself never begun"),
+ "C14-r2m1": ("C14", "level.go recover: file filter by parseFileName (accepts .db.tmp)", "crash after the temporary table was created and before its rename"),
+ "C14-r2m2": ("C14", "memtable.recover: old wals deleted in the loop, replayed entries written in one batch afterwards", "crash, then crash again during recovery"),
+ "C15-r2m1": ("C15", "db.go run: closed flag set only when the queue is empty", "Close while memtables are queued"),
+ "C15-r2m2": ("C15", "db.go search: recursive db.mu.RLock through a new accessor", "a writer requesting db.mu between the two RLocks of a Get"),
+ "C16-r2m1": ("C16", "level.go: lm.mu becomes an RWMutex, lookups take RLock", "two goroutines probing the same table's filter at the same time"),
+ "C16-r2m2": ("C16", "level.go recover: filter rebuilt from the non-tombstone entries only", "tombstone in a newer table than the value, restart, read"),
+ "C17-r2m1": ("C17", "skiplist.Scan: empty-range fast path compares raw key strings", "bounds on the same user key, or a byte below '@', or versions whose decimal strings sort the other way"),
+ "C17-r2m2": ("C17", "skiplist.Get: IsSameKey instead of CompareKeys == 0", "Get of a version that is absent while an older version exists"),
+})
 STRENGTHENED = {  # seeds that the checks missed when they arrived; what was added
  "C01-m1": "job c01-n3-ops2-k3-l0t2 (L0TargetNum 2, three 2-key transactions); C10 level placement",
  "C01-m2": "gated-replay fallback for sequentially replayed jobs (the engine found it at once, the free-running native replay did not reproduce it)",
@@ -60,7 +96,25 @@ STRENGTHENED = {  # seeds that the checks missed when they arrived; what was add
  "C17-m1": "thorough job with the fixed operation sequence Set Set Delete Delete Set",
 }
 
-MEASURED_MISS = {"C01-m2", "C02-m1", "C03-m2", "C04-m1", "C05-m2", "C06-m2", "C09-m1", "C09-m2", "C12-m1", "C13-m1", "C13-m2", "C17-m1"}
+STRENGTHENED.update({
+ "C03-r2m1": "job crash-manyfiles-restart (the change was reported by C02's and C09's many-files jobs from the start)",
+ "C04-r2m1": "workload W6 (65535-byte value in a multi-key transaction), job crash-w6-large-value",
+ "C04-r2m2": "workload W5 + job crash-w5-close-with-pending-flushes-multikey",
+ "C07-r2m1": "two extra commits (job txn-2-rmw-writer-2extracommits)",
+ "C07-r2m2": "job txn-2-readonlyrw-vs-writer (script 9 against a writer)",
+ "C08-r2m1": "assertion C08.misuse-has-no-effect.commit, job txn-2-rmw-vs-use-after-commit",
+ "C08-r2m2": "harness VH_C08_CloseBacklog",
+ "C10-r2m1": "harness VH_C16_Recover with the real filter (job c10-recovered-realfilter)",
+ "C11-r2m1": "NOT detected: the s2 writer is a boundary model of the engine; a shared third-party writer is outside what it can execute (the check ends with an infrastructure error, exit 2, on this change)",
+ "C11-r2m2": "engine: range over a string now decodes UTF-8 on symbolic bytes (it treated bytes as runes)",
+ "C12-r2m1": "needs two preemptions: reported by the thorough tier (preemption bound 2)",
+ "C13-r2m1": "engine: a select whose chosen case is a send recorded two events, the gated confirmation diverged (the engine had found the counterexample)",
+ "C13-r2m2": "native confirmation of a deadlock accepts the harness's own watchdog assertion",
+ "C15-r2m1": "job close-with-backlog-dev1",
+ "C16-r2m1": "job c16-concurrent-lookups-dev1 (the change was reported by C12's check once VH_CONC5 existed)",
+ "C16-r2m2": "harness VH_C16_Recover (filters rebuilt by recover() contain every entry of their table)",
+})
+MEASURED_MISS = {"C03-r2m1", "C04-r2m1", "C04-r2m2", "C07-r2m1", "C07-r2m2", "C08-r2m1", "C08-r2m2", "C10-r2m1", "C11-r2m1", "C11-r2m2", "C12-r2m1", "C13-r2m1", "C13-r2m2", "C15-r2m1", "C16-r2m1", "C16-r2m2","C01-m2", "C02-m1", "C03-m2", "C04-m1", "C05-m2", "C06-m2", "C09-m1", "C09-m2", "C12-m1", "C13-m1", "C13-m2", "C17-m1"}
 
 def main():
     rep = {}
